@@ -217,6 +217,6 @@ SITES = [
          _az_vars, consts=_az_consts, want={'authz_g0', 'authz_g1', 'authz_a3', 'authz_a4', 'authz_a5'}),
     Site('supervisor/http.py', 'make_http_servers', 'mkServers',
          '(username : Option (List UInt8))',
-         {'username': ('username', 'truthy:(username.any (fun s => !s.isEmpty))')},
+         {'username': ('username', 'optbytes')},
          want={'mkServers_g2'}),   # the `if username:` guard
 ]
